@@ -50,6 +50,7 @@ def main():
         lines.append("//@ func (*storeFSM).%s" % name)
         lines.append("//@   props C06 C07")
         lines.append("//@   requires cmd != nil && fsm.data != nil")
+        lines.append("//@   holds fsm.mu")
         if "s.config" in body or "fsm.config" in body:
             lines.append("//@   requires fsm.config != nil")
         if "raftState" in body:
